@@ -12,7 +12,10 @@
   All term forms: integer terms (var/lit/op/ifc/ifz/print/exit/paren), let (both the codata branch and
   the plain one, with the capture guard), call (consumer pushed as last argument), data (ctor/case with
   `share`d continuations and the guard), codata (dtor/new), label/goto (covariables).
-  Fragments are re-stated at the end (`fun2core_typed_int`, …).
+  Besides `check`, the bundles `TOK` / `SOK` / `AOK` / `COK` carry "all identifiers have id 0 and a good
+  name" and `strict` (cut / μ types declared, clauses in declaration order: Scc/Core/TypedStrict.lean).
+  The statement and its fragments are re-stated in Props/C12Fun2Core.lean (`fun2core_typed_term`,
+  `fun2core_typed_int`, …).
 -/
 import Scc.Fun2Core.TypedAux
 
@@ -39,7 +42,7 @@ theorem shareIf_fresh (b : Bool) (c : Term) (st : CompileState) :
 /-- `share` (or not, for a leaf) keeps the consumer typed; the lifted definition is typed -/
 theorem shareIf_typed {P : Prog} {G : String → Prop} {Δ : Ctx} {c : Term} {ty : Ty}
     {st : CompileState} (b : Bool) (hg : FreshGood G) (hc : TOK P G Δ .cns ty c)
-    (hnm : NamesIn G Δ st) :
+    (hty : tyDeclared P ty = true) (hnm : NamesIn G Δ st) :
     SigLifted P (if b = true then (c, st) else share c st).2 → LiftedOk P G st →
     TOK P G Δ .cns ty (if b = true then (c, st) else share c st).1 ∧
       LiftedOk P G (if b = true then (c, st) else share c st).2 := by
@@ -47,12 +50,13 @@ theorem shareIf_typed {P : Prog} {G : String → Prop} {Δ : Ctx} {c : Term} {ty
   · simp only [Bool.false_eq_true, if_false]
     intro hsig hok
     obtain ⟨h1, D, e, hD⟩ := share_check hc.1 (fun b hb => (hnm b hb).1) hsig
-    obtain ⟨i1, i2⟩ := share_ids (st := st) hc.2 (hg.freshVar st)
-    refine ⟨⟨h1, i1⟩, ?_⟩
+    obtain ⟨i1, i2⟩ := share_ids (st := st) hc.2.1 (hg.freshVar st)
+    obtain ⟨j1, j2⟩ := share_strict (st := st) hc.2.2 (by rw [coreGetType_of_check hc.1]; exact hty)
+    refine ⟨⟨h1, i1, j1⟩, ?_⟩
     intro D' hD'
     rw [e] at hD'
     rcases List.mem_cons.1 hD' with rfl | hD'
-    · exact ⟨hD, i2 _ e⟩
+    · exact ⟨hD, (i2 _ e).1, (i2 _ e).2, j2 _ e⟩
     · exact hok D' hD'
   · simp only [if_true]
     exact fun _ hok => ⟨hc, hok⟩
@@ -126,6 +130,61 @@ theorem coclauses_has : ∀ (cs : Fun.Clauses) (st : CompileState) (cs' : Clause
           · exact .inl (Ident.beq_iff.2 rfl)
           · exact .inr (coclauses_has rest st1 r st2 hy k (by simpa [clauseXtors] using hk))
 
+theorem clauses_tags : ∀ (cs : Fun.Clauses) (c : Term) (st : CompileState) (cs' : Clauses)
+    (st' : CompileState), compileClauses cs c st = .ok (cs', st') →
+    cs'.tags = (clauseXtors cs).map fun k => (⟨k, 0⟩ : Ident)
+  | .nil, _, _, _, _, h => by
+    rw [clauses_nil] at h
+    simp only [Except.ok.injEq, Prod.mk.injEq] at h
+    obtain ⟨rfl, rfl⟩ := h
+    simp [Clauses.tags, clauseXtors, Fun.Clauses.toList]
+  | .cons pol x ns ctx body rest, c, st, cs', st', h => by
+    rw [clauses_cons] at h
+    cases hx : compileWithCont body c st with
+    | error e => simp [hx] at h
+    | ok r1 =>
+      obtain ⟨b, st1⟩ := r1
+      simp only [hx] at h
+      cases hy : compileClauses rest c st1 with
+      | error e => simp [hy] at h
+      | ok r2 =>
+        obtain ⟨r, st2⟩ := r2
+        simp only [hy, Except.ok.injEq, Prod.mk.injEq] at h
+        obtain ⟨rfl, rfl⟩ := h
+        have := clauses_tags rest c st1 r st2 hy
+        simp only [clauseXtors] at this
+        simp [Clauses.tags, clauseXtors, Fun.Clauses.toList, this]
+
+theorem coclauses_tags : ∀ (cs : Fun.Clauses) (st : CompileState) (cs' : Clauses)
+    (st' : CompileState), compileCoclauses cs st = .ok (cs', st') →
+    cs'.tags = (clauseXtors cs).map fun k => (⟨k, 0⟩ : Ident)
+  | .nil, _, _, _, h => by
+    rw [coclauses_nil] at h
+    simp only [Except.ok.injEq, Prod.mk.injEq] at h
+    obtain ⟨rfl, rfl⟩ := h
+    simp [Clauses.tags, clauseXtors, Fun.Clauses.toList]
+  | .cons pol x ns ctx body rest, st, cs', st', h => by
+    rw [coclauses_cons] at h
+    cases hg : getType body with
+    | none => simp [hg] at h
+    | some t =>
+      simp only [hg] at h
+      cases hx : compileWithCont body (.var .cns ⟨(freshCovar st).1, 0⟩ (compileTy t))
+          (freshCovar st).2 with
+      | error e => simp [hx] at h
+      | ok r1 =>
+        obtain ⟨b, st1⟩ := r1
+        simp only [hx] at h
+        cases hy : compileCoclauses rest st1 with
+        | error e => simp [hy] at h
+        | ok r2 =>
+          obtain ⟨r, st2⟩ := r2
+          simp only [hy, Except.ok.injEq, Prod.mk.injEq] at h
+          obtain ⟨rfl, rfl⟩ := h
+          have := coclauses_tags rest st1 r st2 hy
+          simp only [clauseXtors] at this
+          simp [Clauses.tags, clauseXtors, Fun.Clauses.toList, this]
+
 theorem covers_of_has {α : Type} (cl : Clauses) (f : α → XtorSig) (nm : α → String)
     (hf : ∀ a, (f a).name = ⟨nm a, 0⟩) : ∀ (l : List α),
     (∀ a ∈ l, cl.has ⟨nm a, 0⟩ = true) → cl.covers (l.map f) = true
@@ -181,7 +240,7 @@ end
 variable {p : Fun.CheckedProgram} {P : Prog} {G : String → Prop}
 
 /-- `compile` = `μa.⟦t⟧_a` with a fresh `a` -/
-theorem tcomp_default (hg : FreshGood G) {t : Fun.Term} (h : TCwc p P G t)
+theorem tcomp_default (env : Env p P) (hg : FreshGood G) {t : Fun.Term} (h : TCwc p P G t)
     (hd : ∀ ty st, compile t ty st = defaultCompile (compileWithCont t) ty st) : TComp p P G t := by
   intro Γ τ Δ st q st' ht hm hrel hnm hb hc hsig hok
   rw [hd, defaultCompile_eq] at hc
@@ -198,10 +257,10 @@ theorem tcomp_default (hg : FreshGood G) {t : Fun.Term} (h : TCwc p P G t)
     have hnm' : NamesIn G (⟨⟨(freshCovar st).1, 0⟩, .cns, compileTy τ⟩ :: Δ) (freshCovar st).2 :=
       (hnm.mono hf0).cons (freshCovar_mem st) hga
     obtain ⟨h1, h2⟩ := h Γ τ _ _ _ _ _ ht hm hrel' hnm' (hb.mono hf0) (TOK.var_head hga) hx hsig hok
-    exact ⟨TOK.mu hga h1, h2⟩
+    exact ⟨TOK.mu hga (tyDeclared_of_typed env ht) h1, h2⟩
 
 /-- forms whose `compile_with_cont` is `⟨compile | c⟩` -/
-theorem tcwc_of_comp {t : Fun.Term} (hc : TComp p P G t)
+theorem tcwc_of_comp (env : Env p P) {t : Fun.Term} (hc : TComp p P G t)
     (hcwc : ∀ Γ τ, TypedM p t Γ τ → ∀ c st, compileWithCont t c st =
       (match compile t (compileTy τ) st with
         | .error e => .error e
@@ -215,11 +274,12 @@ theorem tcwc_of_comp {t : Fun.Term} (hc : TComp p P G t)
     simp only [hx, Except.ok.injEq, Prod.mk.injEq] at h
     obtain ⟨rfl, rfl⟩ := h
     obtain ⟨h1, h2⟩ := hc Γ τ Δ st q _ ht hm hrel hnm hb hx hsig hok
-    exact ⟨SOK.cut h1 hcc, h2⟩
+    exact ⟨SOK.cut (tyDeclared_of_typed env ht) h1 hcc, h2⟩
 
 /-- the capture guard (binders are in the used-names set: one re-entry at most) -/
 theorem tguarded (hg : FreshGood G) {binders L : List String} {an : Option Fun.Ty} {site : String}
-    {core : CwcFn} {Γ : Fun.Ctx} {τ : Fun.Ty} (han : an = some τ) (hsub : ∀ x ∈ binders, x ∈ L)
+    {core : CwcFn} {Γ : Fun.Ctx} {τ : Fun.Ty} (han : an = some τ)
+    (hτ : tyDeclared P (compileTy τ) = true) (hsub : ∀ x ∈ binders, x ∈ L)
     (hcore : ∀ (Δ : Ctx) (c : Term) (st : CompileState) (s : Stmt) (st' : CompileState),
       CtxRel Γ Δ → NamesIn G Δ st → BIn G L st →
       TOK P G Δ .cns (compileTy τ) c → bindersOccurFree binders c = false →
@@ -252,7 +312,7 @@ theorem tguarded (hg : FreshGood G) {binders L : List String} {an : Option Fun.T
           fun hm => freshCovar_not_mem st (hb _ (hsub _ hm)).1
         simpa using this
       obtain ⟨h1, h2⟩ := hcore _ _ _ _ _ hrel' hnm' (hb.mono hf0) (TOK.var_head hga) hnf hx hsig hok
-      exact ⟨SOK.cut (TOK.mu hga h1) hc, h2⟩
+      exact ⟨SOK.cut hτ (TOK.mu hga hτ h1) hc, h2⟩
   · rename_i hfree
     exact hcore Δ c st s st' hrel hnm hb hc (by simpa using hfree) h hsig hok
 
@@ -267,17 +327,17 @@ theorem typed_term : ∀ t : Fun.Term, TCwc p P G t ∧ TComp p P G t
     have hcomp : TComp p P G (.var x ty chi) := by
       intro Γ τ Δ st q st' ht hm hrel hnm hb h hsig hok
       simp only [TypedM] at ht
-      obtain ⟨rfl, -, b, hl, hchi, rfl⟩ := ht
+      obtain ⟨-, rfl, -, b, hl, hchi, rfl⟩ := ht
       rw [c_var] at h
       simp only [Except.ok.injEq, Prod.mk.injEq] at h
       obtain ⟨rfl, rfl⟩ := h
       have hlk := hrel.lookup hl
       refine ⟨TOK.var ?_ (hnm.good hlk), hok⟩
       simpa [hchi, compileChi] using hlk
-    refine ⟨tcwc_of_comp hcomp ?_, hcomp⟩
+    refine ⟨tcwc_of_comp env hcomp ?_, hcomp⟩
     intro Γ τ ht c st
     simp only [TypedM] at ht
-    obtain ⟨rfl, -⟩ := ht
+    obtain ⟨-, rfl, -⟩ := ht
     rfl
   | .lit n => by
     have hcomp : TComp p P G (.lit n) := by
@@ -288,7 +348,7 @@ theorem typed_term : ∀ t : Fun.Term, TCwc p P G t ∧ TComp p P G t
       simp only [Except.ok.injEq, Prod.mk.injEq] at h
       obtain ⟨rfl, rfl⟩ := h
       exact ⟨TOK.lit n, hok⟩
-    refine ⟨tcwc_of_comp hcomp ?_, hcomp⟩
+    refine ⟨tcwc_of_comp env hcomp ?_, hcomp⟩
     intro Γ τ ht c st
     simp only [TypedM] at ht
     subst ht
@@ -320,7 +380,7 @@ theorem typed_term : ∀ t : Fun.Term, TCwc p P G t ∧ TComp p P G t
           obtain ⟨cb, ok2⟩ := hb' Γ .i64 Δ st1 snd _ tyb hm.2 hrel (hnm.mono f1)
             ((hb.sub (by bsub)).mono f1) hy hsig ok1
           exact ⟨TOK.op ca cb, ok2⟩
-    refine ⟨tcwc_of_comp hcomp ?_, hcomp⟩
+    refine ⟨tcwc_of_comp env hcomp ?_, hcomp⟩
     intro Γ τ ht c st
     simp only [TypedM] at ht
     obtain ⟨rfl, -⟩ := ht
@@ -333,10 +393,10 @@ theorem typed_term : ∀ t : Fun.Term, TCwc p P G t ∧ TComp p P G t
     have hcwc : TCwc p P G (.ifc srt a b t e an) := by
       intro Γ τ Δ c st s st' hty hm hrel hnm hb hc h hsig hok
       simp only [TypedM] at hty
-      obtain ⟨-, tya, tyb, tyt, tye⟩ := hty
+      obtain ⟨hti, -, tya, tyb, tyt, tye⟩ := hty
       simp only [Fun.Term.callsMain, Bool.or_eq_false_iff] at hm
       rw [cwc_ifc] at h
-      have hsh := shareIf_typed (st := st) (isLeaf c) hg hc hnm
+      have hsh := shareIf_typed (st := st) (isLeaf c) hg hc (tyDeclared_of_tyIn env hti) hnm
       have hfr := shareIf_fresh (isLeaf c) c st
       generalize (if isLeaf c then (c, st) else share c st) = r at h hsh hfr
       cases hx : compile a .i64 r.2 with
@@ -385,7 +445,7 @@ theorem typed_term : ∀ t : Fun.Term, TCwc p P G t ∧ TComp p P G t
               obtain ⟨ce, ok4⟩ := he Γ τ Δ r.1 st3 elsec _ tye hm.2 hrel n3
                 (b3.sub (by bsub)) hr1 hw hsig ok3
               exact ⟨SOK.ifc ca cb ct ce, ok4⟩
-    exact ⟨hcwc, tcomp_default hg hcwc (fun _ _ => rfl)⟩
+    exact ⟨hcwc, tcomp_default env hg hcwc (fun _ _ => rfl)⟩
   | .ifz srt a t e an => by
     have ha := (typed_term a).2
     have ht' := (typed_term t).1
@@ -393,10 +453,10 @@ theorem typed_term : ∀ t : Fun.Term, TCwc p P G t ∧ TComp p P G t
     have hcwc : TCwc p P G (.ifz srt a t e an) := by
       intro Γ τ Δ c st s st' hty hm hrel hnm hb hc h hsig hok
       simp only [TypedM] at hty
-      obtain ⟨-, tya, tyt, tye⟩ := hty
+      obtain ⟨hti, -, tya, tyt, tye⟩ := hty
       simp only [Fun.Term.callsMain, Bool.or_eq_false_iff] at hm
       rw [cwc_ifz] at h
-      have hsh := shareIf_typed (st := st) (isLeaf c) hg hc hnm
+      have hsh := shareIf_typed (st := st) (isLeaf c) hg hc (tyDeclared_of_tyIn env hti) hnm
       have hfr := shareIf_fresh (isLeaf c) c st
       generalize (if isLeaf c then (c, st) else share c st) = r at h hsh hfr
       cases hx : compile a .i64 r.2 with
@@ -434,14 +494,14 @@ theorem typed_term : ∀ t : Fun.Term, TCwc p P G t ∧ TComp p P G t
             obtain ⟨ce, ok4⟩ := he Γ τ Δ r.1 st3 elsec _ tye hm.2 hrel n3
               (b3.sub (by bsub)) hr1 hw hsig ok3
             exact ⟨SOK.ifz ca ct ce, ok4⟩
-    exact ⟨hcwc, tcomp_default hg hcwc (fun _ _ => rfl)⟩
+    exact ⟨hcwc, tcomp_default env hg hcwc (fun _ _ => rfl)⟩
   | .print nl a n an => by
     have ha := (typed_term a).2
     have hn := (typed_term n).1
     have hcwc : TCwc p P G (.print nl a n an) := by
       intro Γ τ Δ c st s st' hty hm hrel hnm hb hc h hsig hok
       simp only [TypedM] at hty
-      obtain ⟨-, tya, tyn⟩ := hty
+      obtain ⟨-, -, tya, tyn⟩ := hty
       simp only [Fun.Term.callsMain, Bool.or_eq_false_iff] at hm
       rw [cwc_print] at h
       cases hx : compile a .i64 st with
@@ -462,7 +522,7 @@ theorem typed_term : ∀ t : Fun.Term, TCwc p P G t ∧ TComp p P G t
           obtain ⟨cn, ok2⟩ := hn Γ τ Δ c st1 next _ tyn hm.2 hrel (hnm.mono f1)
             ((hb.sub (by bsub)).mono f1) hc hy hsig ok1
           exact ⟨SOK.print ca cn, ok2⟩
-    exact ⟨hcwc, tcomp_default hg hcwc (fun _ _ => rfl)⟩
+    exact ⟨hcwc, tcomp_default env hg hcwc (fun _ _ => rfl)⟩
   | .letIn x σ bound body an => by
     have hbc := (typed_term bound).1
     have hbp := (typed_term bound).2
@@ -470,10 +530,11 @@ theorem typed_term : ∀ t : Fun.Term, TCwc p P G t ∧ TComp p P G t
     have hcwc : TCwc p P G (.letIn x σ bound body an) := by
       intro Γ τ Δ c st s st' hty hm hrel hnm hb hc h hsig hok
       simp only [TypedM] at hty
-      obtain ⟨han, tyb, tyi⟩ := hty
+      obtain ⟨hti, han, tyb, tyi⟩ := hty
       simp only [Fun.Term.callsMain, Bool.or_eq_false_iff] at hm
       rw [cwc_letIn] at h
       refine tguarded hg (Γ := Γ) (τ := τ) (L := binderNames (.letIn x σ bound body an)) han
+        (tyDeclared_of_tyIn env hti)
         (by intro y hy; simp only [List.mem_singleton] at hy; simp [binderNames, hy])
         ?_ hrel hnm hb hc h hsig hok
       intro Δ c st s st' hrel hnm hb hc hnf h hsig hok
@@ -505,19 +566,20 @@ theorem typed_term : ∀ t : Fun.Term, TCwc p P G t ∧ TComp p P G t
               (hsig.of_fresh f2) hok
             obtain ⟨cq, ok2⟩ := hbp Γ σ Δ st1 q _ tyb hm.1 hrel (hnm.mono f1) (hbb.mono f1) hy
               hsig ok1
-            exact ⟨SOK.cut cq (TOK.mu hgx ci), ok2⟩
+            exact ⟨SOK.cut (tyDeclared_of_typed env tyb) cq (TOK.mu hgx (tyDeclared_of_typed env tyb) ci),
+              ok2⟩
         · have f2 := compileWithCont_fresh h
           obtain ⟨ci, ok1⟩ := hi _ τ _ c st inStmt st1 tyi hm.2 hrel1 hnm1 hbi hc1 hx
             (hsig.of_fresh f2) hok
           exact hbc Γ σ Δ _ st1 s st' tyb hm.1 hrel (hnm.mono f1) (hbb.mono f1)
-            (TOK.mu hgx ci) h hsig ok1
-    exact ⟨hcwc, tcomp_default hg hcwc (fun _ _ => rfl)⟩
+            (TOK.mu hgx (tyDeclared_of_typed env tyb) ci) h hsig ok1
+    exact ⟨hcwc, tcomp_default env hg hcwc (fun _ _ => rfl)⟩
   | .call f args an => by
     have hs := typed_subst args
     have hcwc : TCwc p P G (.call f args an) := by
       intro Γ τ Δ c st s st' hty hm hrel hnm hb hc h hsig hok
       simp only [TypedM] at hty
-      obtain ⟨rfl, d, hd, rfl, rfl, targs⟩ := hty
+      obtain ⟨-, rfl, d, hd, rfl, rfl, targs⟩ := hty
       simp only [Fun.Term.callsMain, Bool.or_eq_false_iff, beq_eq_false_iff_ne] at hm
       rw [cwc_call] at h
       cases hx : compileSubst args st with
@@ -532,13 +594,13 @@ theorem typed_term : ∀ t : Fun.Term, TCwc p P G t ∧ TComp p P G t
         refine ⟨SOK.call hD ?_, ok1⟩
         rw [hctx]
         exact ca.snoc rfl hc
-    exact ⟨hcwc, tcomp_default hg hcwc (fun _ _ => rfl)⟩
+    exact ⟨hcwc, tcomp_default env hg hcwc (fun _ _ => rfl)⟩
   | .ctor k args an => by
     have hs := typed_subst args
     have hcomp : TComp p P G (.ctor k args an) := by
       intro Γ τ Δ st q st' hty hm hrel hnm hb h hsig hok
       simp only [TypedM] at hty
-      obtain ⟨rfl, d, cc, hd, hcc, targs⟩ := hty
+      obtain ⟨-, rfl, d, cc, hd, hcc, targs⟩ := hty
       simp only [Fun.Term.callsMain] at hm
       rw [c_ctor] at h
       cases hx : compileSubst args st with
@@ -552,10 +614,10 @@ theorem typed_term : ∀ t : Fun.Term, TCwc p P G t ∧ TComp p P G t
         obtain ⟨T, hT, hfd⟩ := findDecl_data env hd
         rw [hT]
         exact ⟨TOK.xtor (sig := compileCtor cc) hfd (findSig_ctor hcc) ca, ok1⟩
-    refine ⟨tcwc_of_comp hcomp ?_, hcomp⟩
+    refine ⟨tcwc_of_comp env hcomp ?_, hcomp⟩
     intro Γ τ ht c st
     simp only [TypedM] at ht
-    obtain ⟨rfl, -⟩ := ht
+    obtain ⟨-, rfl, -⟩ := ht
     exact cwc_ctor k args (some τ) c st
   | .dtor scrut k ta args an => by
     have hs := typed_subst args
@@ -563,7 +625,7 @@ theorem typed_term : ∀ t : Fun.Term, TCwc p P G t ∧ TComp p P G t
     have hcwc : TCwc p P G (.dtor scrut k ta args an) := by
       intro Γ τ Δ c st s st' hty hm hrel hnm hb hc h hsig hok
       simp only [TypedM] at hty
-      obtain ⟨-, σ, d, sg, tys, hd, hsg, rfl, targs⟩ := hty
+      obtain ⟨-, -, σ, d, sg, tys, hd, hsg, rfl, targs⟩ := hty
       simp only [Fun.Term.callsMain, Bool.or_eq_false_iff] at hm
       rw [cwc_dtor] at h
       cases hx : compileSubst args st with
@@ -582,21 +644,22 @@ theorem typed_term : ∀ t : Fun.Term, TCwc p P G t ∧ TComp p P G t
           exact TOK.xtor (sig := compileDtor sg) hfd (findSig_dtor hsg) (ca.snoc rfl hc)
         exact hsc Γ σ Δ _ st1 s st' tys hm.1 hrel (hnm.mono f1)
           ((hb.sub (by bsub)).mono f1) hnc h hsig ok1
-    exact ⟨hcwc, tcomp_default hg hcwc (fun _ _ => rfl)⟩
+    exact ⟨hcwc, tcomp_default env hg hcwc (fun _ _ => rfl)⟩
   | .case scrut ta cs an => by
     have hcl := typed_clauses cs
     have hsc := (typed_term scrut).1
     have hcwc : TCwc p P G (.case scrut ta cs an) := by
       intro Γ τ Δ c st s st' hty hm hrel hnm hb hc h hsig hok
       simp only [TypedM] at hty
-      obtain ⟨han, σ, d, tys, hd, tcs, hcov⟩ := hty
+      obtain ⟨hti, han, σ, d, tys, hd, tcs, hcov⟩ := hty
       simp only [Fun.Term.callsMain, Bool.or_eq_false_iff] at hm
       rw [cwc_case] at h
-      refine tguarded hg (Γ := Γ) (τ := τ) (L := binderNames (.case scrut ta cs an)) han
+      have hτd := tyDeclared_of_tyIn env hti
+      refine tguarded hg (Γ := Γ) (τ := τ) (L := binderNames (.case scrut ta cs an)) han hτd
         (by intro y hy; simp [binderNames, clausesNames_sub cs y hy]) ?_ hrel hnm hb hc h hsig hok
       intro Δ c st s st' hrel hnm hb hc hnf h hsig hok
       unfold caseCore at h
-      have hsh := shareIf_typed (st := st) (decide (clausesLen cs ≤ 1) || isLeaf c) hg hc hnm
+      have hsh := shareIf_typed (st := st) (decide (clausesLen cs ≤ 1) || isLeaf c) hg hc hτd hnm
       have hfr := shareIf_fresh (decide (clausesLen cs ≤ 1) || isLeaf c) c st
       have htf := shareIf_tfv (st := st) (decide (clausesLen cs ≤ 1) || isLeaf c) hc.1
       generalize (if (decide (clausesLen cs ≤ 1) || isLeaf c) = true then (c, st)
@@ -617,17 +680,19 @@ theorem typed_term : ∀ t : Fun.Term, TCwc p P G t ∧ TComp p P G t
         obtain ⟨T, hT, hfd⟩ := findDecl_data env hd
         have hnc : TOK P G Δ .cns (compileTy σ) (Term.xcase .cns (compileTy σ) cs') := by
           rw [hT]
-          exact TOK.xcase hfd cc (covers_of_has cs' compileCtor (·.name) (fun _ => rfl) d.ctors
-            (fun a ha => clauses_has cs _ _ _ _ hx _ (hcov a ha)))
+          refine TOK.xcase hfd cc (covers_of_has cs' compileCtor (·.name) (fun _ => rfl) d.ctors
+            (fun a ha => clauses_has cs _ _ _ _ hx _ (by rw [hcov]; exact List.mem_map.2 ⟨a, ha, rfl⟩))) ?_
+          rw [clauses_tags cs _ _ _ _ hx, hcov]
+          simp [List.map_map, compileCtor]
         exact hsc Γ σ Δ _ st1 s st' tys hm.1 hrel ((hnm.mono hfr).mono f1)
           ((b0.sub (by bsub)).mono f1) hnc h hsig ok1
-    exact ⟨hcwc, tcomp_default hg hcwc (fun _ _ => rfl)⟩
+    exact ⟨hcwc, tcomp_default env hg hcwc (fun _ _ => rfl)⟩
   | .new cs an => by
     have hs := typed_coclauses cs
     have hcomp : TComp p P G (.new cs an) := by
       intro Γ τ Δ st q st' hty hm hrel hnm hb h hsig hok
       simp only [TypedM] at hty
-      obtain ⟨rfl, d, hd, tcs, hcov⟩ := hty
+      obtain ⟨-, rfl, d, hd, tcs, hcov⟩ := hty
       simp only [Fun.Term.callsMain] at hm
       rw [c_new] at h
       cases hx : compileCoclauses cs st with
@@ -640,19 +705,22 @@ theorem typed_term : ∀ t : Fun.Term, TCwc p P G t ∧ TComp p P G t
           (hb.sub (by bsub)) hx hsig hok
         obtain ⟨T, hT, hfd⟩ := findDecl_codata env hd
         rw [hT]
-        exact ⟨TOK.xcase hfd cc (covers_of_has cs' compileDtor (·.name) (fun _ => rfl) d.dtors
-          (fun a ha => coclauses_has cs _ _ _ hx _ (hcov a ha))), ok1⟩
-    refine ⟨tcwc_of_comp hcomp ?_, hcomp⟩
+        refine ⟨TOK.xcase hfd cc (covers_of_has cs' compileDtor (·.name) (fun _ => rfl) d.dtors
+          (fun a ha => coclauses_has cs _ _ _ hx _ (by rw [hcov]; exact List.mem_map.2 ⟨a, ha, rfl⟩))) ?_,
+          ok1⟩
+        rw [coclauses_tags cs _ _ _ hx, hcov]
+        simp [List.map_map, compileDtor]
+    refine ⟨tcwc_of_comp env hcomp ?_, hcomp⟩
     intro Γ τ ht c st
     simp only [TypedM] at ht
-    obtain ⟨rfl, -⟩ := ht
+    obtain ⟨-, rfl, -⟩ := ht
     exact cwc_new cs (some τ) c st
   | .goto a t an => by
     have ht' := (typed_term t).1
     have hcwc : TCwc p P G (.goto a t an) := by
       intro Γ τ Δ c st s st' hty hm hrel hnm hb hc h hsig hok
       simp only [TypedM] at hty
-      obtain ⟨-, b, hl, hchi, tyt⟩ := hty
+      obtain ⟨-, -, b, hl, hchi, tyt⟩ := hty
       simp only [Fun.Term.callsMain] at hm
       rw [cwc_goto] at h
       simp only [getType_of_typed p t Γ b.ty tyt] at h
@@ -660,13 +728,13 @@ theorem typed_term : ∀ t : Fun.Term, TCwc p P G t ∧ TComp p P G t
       refine ht' Γ b.ty Δ _ st s st' tyt hm hrel hnm (hb.sub (by bsub))
         (TOK.var ?_ (hnm.good hlk)) h hsig hok
       simpa [hchi, compileChi] using hlk
-    exact ⟨hcwc, tcomp_default hg hcwc (fun _ _ => rfl)⟩
+    exact ⟨hcwc, tcomp_default env hg hcwc (fun _ _ => rfl)⟩
   | .label a t an => by
     have ht' := (typed_term t).1
     have hcomp : TComp p P G (.label a t an) := by
       intro Γ τ Δ st q st' hty hm hrel hnm hb h hsig hok
       simp only [TypedM] at hty
-      obtain ⟨rfl, tyt⟩ := hty
+      obtain ⟨hti, rfl, tyt⟩ := hty
       simp only [Fun.Term.callsMain] at hm
       rw [c_label] at h
       simp only at h
@@ -681,18 +749,18 @@ theorem typed_term : ∀ t : Fun.Term, TCwc p P G t ∧ TComp p P G t
         obtain ⟨cs, ok1⟩ := ht' (Γ ++ [⟨a, .cns, τ⟩]) τ (compileBinding ⟨a, .cns, τ⟩ :: Δ) _ st s _
           tyt hm (hrel.snoc _) (hnm.cons (hb a hab).1 hga) (hb.sub (by bsub))
           (TOK.var_head hga) hx hsig hok
-        exact ⟨TOK.mu hga cs, ok1⟩
-    refine ⟨tcwc_of_comp hcomp ?_, hcomp⟩
+        exact ⟨TOK.mu hga (tyDeclared_of_tyIn env hti) cs, ok1⟩
+    refine ⟨tcwc_of_comp env hcomp ?_, hcomp⟩
     intro Γ τ ht c st
     simp only [TypedM] at ht
-    obtain ⟨rfl, -⟩ := ht
+    obtain ⟨-, rfl, -⟩ := ht
     exact cwc_label a t (some τ) c st
   | .exit arg an => by
     have ha := (typed_term arg).2
     have hcwc : TCwc p P G (.exit arg an) := by
       intro Γ τ Δ c st s st' hty hm hrel hnm hb hc h hsig hok
       simp only [TypedM] at hty
-      obtain ⟨rfl, tya⟩ := hty
+      obtain ⟨-, rfl, tya⟩ := hty
       simp only [Fun.Term.callsMain] at hm
       rw [cwc_exit] at h
       cases hx : compile arg .i64 st with
@@ -704,7 +772,7 @@ theorem typed_term : ∀ t : Fun.Term, TCwc p P G t ∧ TComp p P G t
         obtain ⟨ca, ok1⟩ := ha Γ .i64 Δ st a _ tya hm hrel hnm
           (hb.sub (by bsub)) hx hsig hok
         exact ⟨SOK.exit ca, ok1⟩
-    exact ⟨hcwc, tcomp_default hg hcwc (fun _ _ => rfl)⟩
+    exact ⟨hcwc, tcomp_default env hg hcwc (fun _ _ => rfl)⟩
   | .paren inner => by
     have hi := typed_term inner
     refine ⟨fun Γ τ Δ c st s st' hty hm hrel hnm hb hc h hsig hok => ?_,
